@@ -1,6 +1,6 @@
 SPECIFICATION GenSpec
 CONSTANTS
-  Deep = FALSE
+  Deep = TRUE
   GlobPosBytes = 2
   LoopBits = 3
 INVARIANT Emit
